@@ -131,7 +131,7 @@ fn run(cfg: &RunCfg) -> Report {
         cmd_len_max: if small { 0 } else { cfg.pick(24, 48) as usize },
         truncations: !small,
         lengths: !small,
-        random: if small { 300_000 } else { cfg.pick(1_200_000, 120_000_000) },
+        random: if small { 300_000 } else { cfg.pick(6_000_000, 120_000_000) },
     };
     super::c01::with_receivers(cfg.seed ^ 0x99, |rx| {
         let sender_cfg = CtxCfg { addr: 0xFF, types: vec![], vendors: vec![(1, 7, 7)] };
